@@ -30,9 +30,10 @@ package node
 //@   nopanic
 //@   requires wf_ctx(ctx)
 //@   assumes noalias(ctx)
-//@   modifies ctx.SenderPubKey, lastigas
-//@   allocates uint256.Int
+//@   modifies ctx.SenderPubKey, lastigas, allmaps(memItems.gotItems), itemkey, itemenc, StakeLimiter.*, powerObj.*, allelems(StakeLimiter.powerObjs)
+//@   allocates uint256.Int, Delegatee, Stake, BlockMarker, Reward, powerObj
 //@   ensures tx_same(ctx.Tx)                                                                                 [C03,C05]
+//@   ensures result == nil && (ctx.Tx.Type == 2 || ctx.Tx.Type == 3 || ctx.Tx.Type == 8) ==> stake_ready(ctx.TrxStakeHandler, ctx)   [C13]
 //@   ensures result == nil && ctx.Exec ==> sig_ok(ctx.Tx, ctx.ChainID)                                       [C03]
 //@   ensures result == nil ==> ctx.Sender.Nonce == ctx.Tx.Nonce                                              [C04]
 //@   ensures result == nil ==> u(ctx.Tx.GasPrice) == govGasPrice[ctx.GovHandler] && fee_of(ctx.Tx) >= govMinTrxGas[ctx.GovHandler] * govGasPrice[ctx.GovHandler]   [C16]
@@ -60,6 +61,7 @@ package node
 //@   requires ctx.Exec ==> sig_ok(ctx.Tx, ctx.ChainID)                                                       [C03]
 //@   requires ctx.Sender.Nonce == ctx.Tx.Nonce                                                               [C04]
 //@   requires fee_of(ctx.Tx) + u(ctx.Tx.Amount) <= u(ctx.Sender.Balance) && u(ctx.Tx.GasPrice) < 2^128 && ctx.Tx.Gas < 2^63
+//@   requires ctx.Tx.Type == 2 || ctx.Tx.Type == 3 || ctx.Tx.Type == 8 ==> stake_ready(ctx.TrxStakeHandler, ctx)   [C13]
 //@   modifies everything
 //@   preserves feeSumObj, u(feeSumObj), govPriceObj, u(govPriceObj), RigoApp.*, BlockContext.*, Config.*, GovParams.gasPrice, Trx.*, govGasPrice, govMinTrxGas, TrxContext.Tx, TrxContext.Sender, TrxContext.Exec, TrxContext.GovHandler
 //@   ensures result == nil && old(native_tx(ctx)) ==> ctx.Sender.Nonce == old(ctx.Sender.Nonce) + 1 || old(ctx.Sender.Nonce) == 18446744073709551615   [C04]
